@@ -40,6 +40,7 @@ pub fn simple_geometry(piece_len: u64, total: u64) -> Geometry {
         files: vec![FileSpec { path: "data.bin".into(), len: total }],
         announce: "http://tracker.sim:6969/announce".into(),
         pad: String::new(),
+        phantom: false,
     }
 }
 
@@ -134,9 +135,19 @@ pub fn gen_files(r: &mut Rng64, piece_len: u64, total: u64) -> (bool, Vec<FileSp
 }
 
 pub fn gen_geometry(r: &mut Rng64, max_pieces: usize, small: bool) -> Geometry {
-    let piece_len = gen_piece_len(r, small);
+    gen_geometry_with(r, max_pieces, small, false)
+}
+
+/// `huge`: piece lengths around and above the client's own default (256 KiB) and its read
+/// buffers; few pieces, so the run stays cheap.
+pub fn gen_geometry_with(r: &mut Rng64, max_pieces: usize, small: bool, huge: bool) -> Geometry {
+    let piece_len = if huge {
+        *r.pick(&[262_143u64, 262_144, 262_145, 278_528, 300_001, 524_288, 1_048_576])
+    } else {
+        gen_piece_len(r, small)
+    };
     let mut n = if r.chance(1, 2) { r.range(1, 5.min(max_pieces as u64)) } else { r.range(1, max_pieces as u64) };
-    let cap = 300_000u64;
+    let cap = if huge { 2_200_000u64 } else { 300_000u64 };
     while n > 1 && n * piece_len > cap {
         n -= 1;
     }
@@ -150,6 +161,7 @@ pub fn gen_geometry(r: &mut Rng64, max_pieces: usize, small: bool) -> Geometry {
         files,
         announce: "http://tracker.sim:6969/announce".into(),
         pad: String::new(),
+        phantom: false,
     }
 }
 
@@ -177,7 +189,8 @@ pub fn gen_net(r: &mut Rng64, calm: bool) -> NetPlan {
 /// One honest seeder, no faults: all variation goes into piece length x file list.
 pub fn geometry(seed: u64) -> Plan {
     let mut r = Rng64::sub(seed, "geometry");
-    let g = gen_geometry(&mut r, 12, true);
+    let huge = Rng64::sub(seed, "geometry-huge").chance(1, 25);
+    let g = gen_geometry_with(&mut r, if huge { 4 } else { 12 }, true, huge);
     let n = g.pieces();
     let mut p = base_plan("geometry", seed, g);
     p.peers.push(base_peer(0, n));
@@ -269,7 +282,9 @@ pub fn announce_url(seed: u64) -> Plan {
         0 => String::new(),
         _ => format!(":{}", r.range(1, 65535)),
     };
-    let path = r.pick(&["/announce", "/a/b/announce", "/", "/announce.php", "/x%20y/ann"]).to_string();
+    let path = r
+        .pick(&["/announce", "/a/b/announce", "/", "/announce.php", "/x%20y/ann", "/announce/", "/tracker/p4ssk3y/", "", "//announce"])
+        .to_string();
     let query = match r.below(10) {
         0..=3 => String::new(),
         4 => "?passkey=abc123".to_string(),
@@ -278,9 +293,35 @@ pub fn announce_url(seed: u64) -> Plan {
         // a literal '?' inside the existing query is legal (RFC 3986 3.4)
         7 => "?k=v&q=what?".to_string(),
         8 => "?ref=http://mirror.example/a?b&passkey=s3cr3t".to_string(),
-        _ => "?a=b&".to_string(),
+        _ => r.pick(&["?a=b&", "?ret=/home/", "?k=v=w&x=", "?a=1&a=2", "?K=V%26W"]).to_string(),
     };
     g.announce = format!("http://{}{}{}{}", host, port, path, query);
+    // declared lengths around and beyond 32 bits (nothing is downloaded in this profile)
+    let phantom = r.chance(1, 6);
+    if phantom {
+        let total = *r.pick(&[(1u64 << 32) - 1, 1 << 32, (1 << 32) + 1, (1 << 32) + 123_456_789, 5_000_000_000, 1 << 33, (1 << 40) + 7, (1 << 31) + 5]);
+        let mut pl = 1u64 << 24;
+        while total / pl > 600 {
+            pl *= 2;
+        }
+        g = simple_geometry(pl, total);
+        g.announce = format!("http://{}{}{}{}", host, port, path, query);
+        g.phantom = true;
+        if r.chance(1, 2) {
+            // several files, each below 4 GiB, together above
+            let k = r.range(2, 5);
+            let mut left = total;
+            let mut files = Vec::new();
+            for i in 0..k {
+                let l = if i + 1 == k { left } else { (left / (k - i)).min(u32::MAX as u64 - r.range(0, 1000)) };
+                files.push(FileSpec { path: format!("f{}.bin", i), len: l });
+                left -= l;
+            }
+            g.single = false;
+            g.name = "bundle".into();
+            g.files = files;
+        }
+    }
     // grind the pad until the info-hash contains the byte aimed at
     let target = (seed % 256) as u8;
     // content and piece hashes do not depend on the pad: hash them once, then only re-hash the
@@ -301,7 +342,9 @@ pub fn announce_url(seed: u64) -> Plan {
     let n = g.pieces();
     let mut p = base_plan("announce-url", seed, g);
     p.own_id = alnum_id(&mut r);
-    p.peers.push(base_peer(0, n));
+    if !phantom {
+        p.peers.push(base_peer(0, n));
+    }
     good_tracker(&mut p, 1);
     p.deadline_ms = 5_000;
     p.stop_on_done = false;
@@ -1578,6 +1621,21 @@ pub fn tracker_faults(seed: u64) -> Plan {
         }
     }
     p.peers.push(d);
+    // a crowd of seeders finds the client during the outage: by the time the tracker answers,
+    // every connection slot is taken (they never unchoke, so the client stays interested)
+    if failures >= 2 && r.chance(1, 8) {
+        let m = r.range(9, 16) as usize;
+        let mut t = r.range(0, 300);
+        for j in 0..m {
+            let mut c = base_peer(k + 1 + j, n);
+            c.listed = false;
+            c.essential = false;
+            c.unchoke = Unchoke::Never;
+            c.dial_in = vec![t];
+            t += r.range(20, (total_ms / (m as u64 + 1)).max(40));
+            p.peers.push(c);
+        }
+    }
     // re-announce: every listed peer leaves, the client has to ask the tracker again
     if flapping || r.chance(1, 4) {
         for peer in p.peers.iter_mut().take(k) {
